@@ -1336,17 +1336,16 @@ where
     fn clone(&self) -> Self {
         // SAFETY: Clone requires creating a new map with the same config.
         // If allocation fails, we panic as there's no graceful fallback for Clone.
-        let new_map = Self::with_config_and_hasher(self.config.clone(), self.hash_builder.clone())
+        let mut new_map = Self::with_config_and_hasher(self.config.clone(), self.hash_builder.clone())
             .unwrap_or_else(|e| {
                 panic!("ZiporaHashMap clone failed: {}. \
                        This indicates severe memory pressure.", e)
             });
 
         // Copy all entries from the original map
-        // TODO: Implement proper copying when iter() is available
-        // for (key, value) in self.iter() {
-        //     let _ = new_map.insert(key.clone(), value.clone());
-        // }
+        for (key, value) in self.iter() {
+            let _ = new_map.insert(key.clone(), value.clone());
+        }
 
         new_map
     }
